@@ -269,6 +269,7 @@ func loadKnownFindings(path, prop string) []*knownFinding {
 
 type propReport struct {
 	prop, tier, verif string
+	bounded           []boundedResult
 	known             []*knownFinding
 	verbose           bool
 	start             time.Time
@@ -414,6 +415,7 @@ func (r *propReport) fail(e *Engine, g *Gen, name string, res *Result, why strin
 }
 
 func (r *propReport) finish(e *Engine, noEvidence bool) int {
+	r.reportBounded(e)
 	for _, u := range r.undecided {
 		fmt.Printf("UNDECIDED property=%s %s\n", r.prop, u)
 	}
@@ -462,6 +464,9 @@ func (r *propReport) writeEvidence(e *Engine, wall float64) {
 		"slices/strings handed to a verified function have len,cap,offset <= 2^40 and satisfy 0<=len<=cap",
 		"go/ssa (x/tools v0.50.0) builds SSA that means what the compiler compiles; govc's SSA-to-SMT semantics is correct (DESIGN.md §3.2)",
 		"termination is proved only where a decreases clause exists; data races and interleavings are out of scope")
+	for _, b := range r.bounded {
+		assumptions = append(assumptions, fmt.Sprintf("BOUNDED stand-in (not a proof, not counted as discharged): %s on package %s, bound: %s, %d cases enumerated on the real code", b.Name, b.Pkg, b.Bound, b.Cases))
+	}
 	ev := map[string]any{
 		"property_id": r.prop,
 		"tier":        r.tier,
@@ -485,6 +490,7 @@ func (r *propReport) writeEvidence(e *Engine, wall float64) {
 			"samples":                  r.samples,
 			"per_obligation":           r.obls,
 			"replays":                  r.replays,
+			"bounded_stand_ins":        r.bounded,
 		},
 	}
 	if level == "other" && expl == "" {
